@@ -101,7 +101,9 @@ def mutations(rng, name, b):
     for rl in (0, 1, 2, max(0, len(body) - 1), len(body) + 1, len(body) + 50):
         out.append((f"{name}:remlen{rl}", bytes([b[0]]) + remlen(rl) + body))
     out.append((f"{name}:remlen-5bytes", bytes([b[0], 0x80, 0x80, 0x80, 0x80, 0x01]) + body))
-    out.append((f"{name}:remlen-4bytes-big", bytes([b[0], 0xff, 0xff, 0xff, 0x7f]) + body))
+    if name == "pingreq":
+        # the maximal remaining length makes the broker allocate 256 MiB for this connection: once is enough
+        out.append((f"{name}:remlen-4bytes-big", bytes([b[0], 0xff, 0xff, 0xff, 0x7f]) + body))
     # corrupted length prefixes inside the body
     for k in range(len(body) - 1):
         if body[k] == 0 and body[k + 1] < 64:
